@@ -27,7 +27,7 @@ theorem hd_of_pk {k' k : Key} {rid : Nat} (ph : PKeep πHD k' k) :
   exact ⟨e1, by rw [← e2]; exact hd⟩
 
 theorem dropT_wfk {seq0 : Nat} (w : W) (rid : Nat) : WFK (· = rid) seq0 (w.dropT rid).k w.k := by
-  refine wfk_of_chain rid ?_ (pk_dropT ins_πC w rid (fun _ _ => rfl)) ?_
+  refine wfk_of_chain rid ?_ (pk_dropT ins_πC w rid (fun _ _ => rfl)) ?_ ?_
   · unfold W.dropT
     exact (PKeepX.of_pk (pk_unrefCheck ins_πA _ rid)).trans (PKeepX.modRec (X := (· = rid)) w.k rid (fun r => { r with tSched := none }) (fun _ => rfl) rfl)
   · intro hh hl
@@ -35,7 +35,7 @@ theorem dropT_wfk {seq0 : Nat} (w : W) (rid : Nat) : WFK (· = rid) seq0 (w.drop
   · exact hd_of_pk (pk_dropT ins_πHD w rid (fun _ _ => rfl))
 
 theorem dropE_wfk {seq0 : Nat} (w : W) (rid : Nat) : WFK (· = rid) seq0 (w.dropE rid).k w.k := by
-  refine wfk_of_chain rid ?_ (pk_dropE ins_πC w rid (fun _ _ => rfl)) ?_
+  refine wfk_of_chain rid ?_ (pk_dropE ins_πC w rid (fun _ _ => rfl)) ?_ ?_
   · unfold W.dropE
     exact (PKeepX.of_pk (pk_unrefCheck ins_πA _ rid)).trans (PKeepX.modRec (X := (· = rid)) w.k rid (fun r => { r with eSched := none }) (fun _ => rfl) rfl)
   · intro hh hl
